@@ -24,6 +24,9 @@ use tracing::{debug, error};
 pub struct TlsClientHelloReader {
     buffer: Vec<u8>,
     signature: Option<Signature>,
+    /// The stream was found not to start with a TLS handshake record: nothing is read from it
+    /// any more (until `reset`).
+    not_tls_handshake: bool,
 }
 
 impl TlsClientHelloReader {
@@ -33,7 +36,7 @@ impl TlsClientHelloReader {
     /// A new `TlsClientHelloReader` instance ready to process TLS ClientHello data
     #[must_use]
     pub fn new() -> Self {
-        Self { buffer: Vec::with_capacity(8192), signature: None }
+        Self { buffer: Vec::with_capacity(8192), signature: None, not_tls_handshake: false }
     }
 
     /// Add bytes to the buffer and attempt to parse ClientHello
@@ -56,6 +59,10 @@ impl TlsClientHelloReader {
             debug!("Signature already parsed, skipping new bytes.");
             return Ok(None);
         }
+        if self.not_tls_handshake {
+            debug!("Stream does not start with a TLS handshake record, skipping new bytes.");
+            return Ok(None);
+        }
 
         // Check if we have enough data to determine TLS record length
         self.buffer.extend_from_slice(data);
@@ -76,9 +83,11 @@ impl TlsClientHelloReader {
                 "First byte is not TLS Handshake (0x16), got 0x{:02x}. Might be continuation data.",
                 content_type
             );
-            // Nothing can ever be parsed from a buffer that does not start with a handshake
-            // record: do not keep (and keep growing) it for the lifetime of the flow.
+            // Nothing can ever be parsed from a stream that does not start with a handshake
+            // record: do not keep (and keep growing) its bytes for the lifetime of the flow, and
+            // do not take a later segment of the same record for the start of the stream.
             self.buffer.clear();
+            self.not_tls_handshake = true;
             return Ok(None);
         }
 
@@ -158,6 +167,7 @@ impl TlsClientHelloReader {
     pub fn reset(&mut self) {
         self.buffer.clear();
         self.signature = None;
+        self.not_tls_handshake = false;
     }
 
     /// Get the current buffer size
